@@ -12,35 +12,49 @@ UNITS = ['src/Array.c', 'src/List.c', 'src/Tuple.c', 'src/Assign.c', 'src/Except
 # index acceptance: abstract walk of the index arithmetic
 
 class Walk:
-    """follows one function's CFG for a concrete key value k and length n, interpreting only the integer
-    index arithmetic; everything else is skipped. Returns ('refuse', kind) | ('accept', index) | ('unknown', why)"""
+    """follows one function's CFG for a concrete key value k and length n, interpreting only the integer index arithmetic
+    — with exact C conversions (cint: a negative index compared with an unsigned length is a huge number, as compiled) —
+    everything else is skipped. Returns ('refuse', kind) | ('accept', index) | ('unknown', why)"""
 
     def __init__(self, P, T):
         self.P = P
         self.T = T
 
-    def atoms(self, fn, n):
-        a = {('arrow', ('param', 0), 'nitems'): n,
-             ir.canon(('call', ('func', 'Tuple_Len'), (('param', 'self', 0),))): n}
-        return a
+    def interp(self, fn, n, k):
+        from . import cint
+
+        def call(nm, e, it):
+            if nm == 'c_int' and e[2] and ir.top_nocast(e[2][0])[0] == 'param' and ir.top_nocast(e[2][0])[2] >= 1:
+                return k
+            if nm == 'Tuple_Len':
+                return n
+            raise cint.NoEval('call %s' % nm)
+        return cint.CInt(self.P, fn, atoms={('arrow', ('param', 0), 'nitems'): n}, call=call)
 
     def run(self, fname, k, n, args=None, depth=0):
+        from . import cint
         P = self.P
         fn = P.fn(fname)
         g = P.cfg(fn)
-        N = util.Norm(P, fn, inline=False)
-        env = dict(self.atoms(fn, n))
-        # parameters
+        it = self.interp(fn, n, k)
         for i, (pn, pt) in enumerate(fn['params']):
             if args and i in args:
-                env[('param', i)] = args[i]
-        keycalls = {ir.canon(('call', ('func', 'c_int'), (('param', pn, i),))): k for i, (pn, pt) in enumerate(fn['params']) if i >= 1}
-        env.update(keycalls)
+                it.params[i] = args[i]
         node = g.nodes[g.entry]
-        last_index = None
         steps = 0
-        idx_var = None
-        keyish = set(keycalls)
+        idx_var = None              # id of the local that is tested against the bounds
+        keyish = set()              # ids of locals whose value derives from the key
+
+        def from_key(e):
+            for x in ir.walk(e):
+                if x[0] == 'local' and x[2] in keyish:
+                    return True
+                if x[0] == 'call' and ir.callee_name(x) == 'c_int' and x[2] and ir.top_nocast(x[2][0])[0] == 'param' and ir.top_nocast(x[2][0])[2] >= 1:
+                    return True
+            return False
+
+        def index():
+            return it.locals.get(idx_var) if idx_var is not None else None
         while steps < 200:
             steps += 1
             kind = node['kind']
@@ -50,55 +64,50 @@ class Walk:
                 return ('unknown', 'terminator %s' % (node['why'],))
             if kind in ('ret', 'exit'):
                 if kind == 'ret' and node['expr'] is not None:
-                    r = self.helper_call(fn, N, node['expr'], env, k, n, depth)
+                    r = self.helper_call(fn, it, node['expr'], k, n, depth)
                     if r is not None:
                         return r
-                return ('accept', env.get(idx_var) if idx_var is not None else None)
+                return ('accept', index())
             if kind == 'cond':
-                c = N.canon(node['expr'])
                 try:
-                    v = loops.ev(c, env, unsigned=False)
-                except NoEval:
+                    v = it.ev(node['expr'])
+                except cint.NoEval:
                     # past the index arithmetic (walk loops etc.): the index has been accepted
-                    return ('accept', env.get(idx_var) if idx_var is not None else None)
-                # remember the variable tested against the bounds
-                tb, fb = succ_of(node, True), succ_of(node, False)
+                    return ('accept', index())
+                tb = succ_of(node, True)
                 if tb is not None and throw_only(g, tb):
-                    lv = [x for x in ir.walk(c) if x[0] == 'local' and x in keyish]
+                    lv = [x for x in ir.walk(node['expr']) if x[0] == 'local' and x[2] in keyish]
                     if lv:
-                        idx_var = lv[0]
+                        idx_var = lv[0][2]
                 node = g.nodes[succ_of(node, bool(v))]
                 continue
             if kind == 'stmt' and node['expr'] is not None:
-                r = self.helper_call(fn, N, node['expr'], env, k, n, depth)
+                r = self.helper_call(fn, it, node['expr'], k, n, depth)
                 if r is not None and r[0] == 'refuse':
                     return r
                 if r is not None and r[0] == 'accept' and idx_var is None:
                     return r
                 for ev in util.expr_events(node['expr'], node):
                     if ev['t'] == 'write':
-                        lhs = N.canon(ev['lhs'])
-                        if lhs[0] in ('local', 'param') or lhs == ('arrow', ('param', 0), 'nitems'):
-                            if ev['rhs'] is not None and util.mentions(N.canon(ev['rhs']), lambda y: y in keyish):
-                                keyish.add(lhs)
-                            try:
-                                if ev['op'] == '=':
-                                    env[lhs] = loops.ev(N.canon(ev['rhs']), env, unsigned=False)
-                                elif ev['op'] == '++':
-                                    env[lhs] = env[lhs] + 1
-                                elif ev['op'] == '--':
-                                    env[lhs] = env[lhs] - 1
-                                else:
-                                    env.pop(lhs, None)
-                            except (NoEval, KeyError):
-                                env.pop(lhs, None)
+                        lhs = ir.top_nocast(ev['lhs'])
+                        if lhs[0] == 'local' and ev['rhs'] is not None and from_key(ev['rhs']):
+                            keyish.add(lhs[2])
+                try:
+                    it.ev(node['expr'])
+                except cint.NoEval:
+                    for ev in util.expr_events(node['expr'], node):
+                        if ev['t'] == 'write':
+                            lhs = ir.top_nocast(ev['lhs'])
+                            if lhs[0] == 'local':
+                                it.locals.pop(lhs[2], None)
             if not node['succ']:
-                return ('accept', env.get(idx_var) if idx_var is not None else None)
+                return ('accept', index())
             node = g.nodes[node['succ'][0][0]]
         return ('unknown', 'walk did not finish')
 
-    def helper_call(self, fn, N, e, env, k, n, depth):
-        """index helpers of the same unit (List_At, X_Pop_At from X_Rem ...) are walked with evaluated integer arguments"""
+    def helper_call(self, fn, it, e, k, n, depth):
+        """index helpers of the same unit (List_At) are walked with evaluated integer arguments"""
+        from . import cint
         if depth > 2:
             return None
         for c in ir.calls(e):
@@ -111,49 +120,51 @@ class Walk:
             args = {}
             for i, a in enumerate(c[2]):
                 try:
-                    args[i] = loops.ev(N.canon(a), env, unsigned=False)
-                except NoEval:
+                    v = it.ev(a)
+                    if isinstance(v, int):
+                        args[i] = v
+                except cint.NoEval:
                     pass
             if 1 in args:
-                return self.run_at(nm, args, env.get(('arrow', ('param', 0), 'nitems'), n), depth + 1)
+                return self.run_at(nm, args, it.atoms.get(('arrow', ('param', 0), 'nitems'), n), depth + 1)
         return None
 
     def run_at(self, fname, args, n, depth):
+        from . import cint
         P = self.P
         fn = P.fn(fname)
         g = P.cfg(fn)
-        N = util.Norm(P, fn, inline=False)
-        env = {('arrow', ('param', 0), 'nitems'): n}
+        it = self.interp(fn, n, None)
         for i, v in args.items():
-            env[('param', i)] = v
+            it.params[i] = v
         node = g.nodes[g.entry]
-        idx_var = ('param', 1)
         for _ in range(100):
             if node['kind'] == 'term':
                 return ('refuse', node['why'][1]) if node['why'][0] == 'throw' else ('unknown', 'term')
             if node['kind'] in ('ret', 'exit'):
-                return ('accept', env.get(idx_var))
+                return ('accept', it.params.get(1))
             if node['kind'] == 'cond':
                 try:
-                    v = loops.ev(N.canon(node['expr']), env, unsigned=False)
-                except NoEval:
-                    return ('accept', env.get(idx_var))
+                    v = it.ev(node['expr'])
+                except cint.NoEval:
+                    return ('accept', it.params.get(1))
                 tb = succ_of(node, True)
                 nxt = g.nodes[succ_of(node, bool(v))]
                 if tb is not None and not throw_only(g, tb) and not (succ_of(node, False) is not None and throw_only(g, succ_of(node, False))):
                     # first non-bounds decision (choice of walking direction): the index is final here
-                    return ('accept', env.get(idx_var))
+                    return ('accept', it.params.get(1))
                 node = nxt
                 continue
             if node['kind'] == 'stmt' and node['expr'] is not None:
-                for ev in util.expr_events(node['expr'], node):
-                    if ev['t'] == 'write' and N.canon(ev['lhs']) == idx_var and ev['op'] == '=':
-                        try:
-                            env[idx_var] = loops.ev(N.canon(ev['rhs']), env, unsigned=False)
-                        except NoEval:
-                            return ('unknown', 'index arithmetic not evaluable')
+                writes_idx = any(ev['t'] == 'write' and ir.top_nocast(ev['lhs'])[0] == 'param' and ir.top_nocast(ev['lhs'])[2] == 1
+                                 for ev in util.expr_events(node['expr'], node))
+                try:
+                    it.ev(node['expr'])
+                except cint.NoEval:
+                    if writes_idx:
+                        return ('unknown', 'index arithmetic not evaluable')
             if not node['succ']:
-                return ('accept', env.get(idx_var))
+                return ('accept', it.params.get(1))
             node = g.nodes[node['succ'][0][0]]
         return ('unknown', 'no end')
 
